@@ -6,6 +6,7 @@ import Stef.Driver.Core
 import Stef.Driver.Bits
 import Stef.Driver.Chunk
 import Stef.Driver.Spec
+import Stef.Driver.SpecEnc
 import Stef.Driver.Codec
 import Stef.Driver.Limiter
 import Stef.Driver.Handshake
@@ -23,6 +24,7 @@ def mkHandlers : IO (List (List String × Handler)) := do
   let bits ← mkHandler ({} : Bits.St) Bits.step
   let chunk ← mkHandler ({} : Chunk.St) Chunk.step
   let spec ← mkHandler ({} : SpecD.St) SpecD.step
+  let specEnc ← mkHandler ({} : SpecEncD.St) SpecEncD.step
   let codec ← mkHandler ({} : CodecD.St) CodecD.step
   let limiter ← mkHandler ({} : LimiterD.St) LimiterD.step
   let hs ← mkHandler () HandshakeD.step
@@ -44,6 +46,7 @@ def mkHandlers : IO (List (List String × Handler)) := do
     (["hs"], hs),
     (["sl"], limiter),
     (["sd"], spec),
+    (["se"], specEnc),
     (["ce", "cx"], codec),
     (["bw", "br"], bits),
     (["ca", "cw"], chunk)
